@@ -2,6 +2,7 @@
    Global model: C03/ReduceModel.v (treeval); sc_search_bias and the constants are generated from /repo. *)
 From Coq Require Import ZArith List Bool.
 From ScV Require Import Base.CInt Gen.Consts Gen.Macros C03.ReduceModel C03.ReduceProofs C18.MacroProofs.
+From ScV Require Import MPI.Prog MPI.Sem MPI.SemFrame C03.ReduceSched.
 Import ListNotations.
 Local Open Scope Z_scope.
 
@@ -37,3 +38,63 @@ Example C03_nonvacuous :
   (* string-like concatenation is associative and not commutative *)
   reduce_result (list Z) (fun s r => r ++ s) 11 (fun i => [i]) = [0; 1; 2; 3; 4; 5; 6; 7; 8; 9; 10].
 Proof. vm_compute. reflexivity. Qed.
+
+(* ==== from the per-rank programs to the global tree model, under EVERY message timing =====================
+   The system (red_start P target): rank r (0 <= r < P) runs the per-rank program
+   `reduce_prog P (maxlevel P) false target r` of C03/ReduceModel.v - the program that is co-simulated against the
+   trace of the real sc_reduce on every run - in the interleaving semantics of MPI/Sem.v (buffered sends, FIFO
+   channels per (source, destination, tag)); all channels are empty at the start.
+   For every communicator size 1 <= P <= 2^30 (the range in which the int arithmetic of the GENERATED
+   sc_search_bias does not overflow) and every target: there are n and a state f with
+   (1) some schedule reaches f in n steps, f is final (every rank has returned), the target has returned the
+       symbolic value of the global tree model, and NO message is left in any channel; and for EVERY schedule
+       prefix `run m (red_start P target) s'`:
+   (2) m <= n and s' can be completed to f in exactly n - m steps (termination),
+   (3) if s' is final it IS f (the same result on every repetition and under every message timing),
+   (4) s' is final or some rank can move (no deadlock). *)
+Theorem C03_reduce_every_schedule : forall P target, 1 <= P <= 2 ^ 30 -> 0 <= target < P ->
+  exists (n : nat) (f : gs),
+    run n (red_start P target) f /\ final f /\
+    pr f target = Ret (sym_reduce_result P) /\
+    (forall a b t, ch f a b t = []) /\
+    forall m s', run m (red_start P target) s' ->
+      (m <= n)%nat /\ run (n - m) s' f /\
+      (final s' -> s' = f /\ m = n) /\
+      (final s' \/ exists r s'', step s' r s'').
+Proof. exact reduce_all_schedules. Qed.
+Print Assumptions C03_reduce_every_schedule.
+
+(* the witness schedule itself needs no axiom *)
+Theorem C03_reduce_one_schedule : forall P target, 1 <= P <= 2 ^ 30 -> 0 <= target < P ->
+  exists n f, run n (red_start P target) f /\ final f /\ pr f target = Ret (sym_reduce_result P) /\
+    (forall a b t, ch f a b t = []).
+Proof. exact reduce_one_schedule. Qed.
+Print Assumptions C03_reduce_one_schedule.
+
+(* symbolic payloads cover every datatype, every operator and all inputs: interpreting the prefix code of the
+   model's symbolic result with a concrete reduce_fn f and concrete inputs x gives reduce_result T f P x, the value
+   of the global tree model that C03_rank_order_fold is about *)
+Theorem C03_symbolic_result_is_tree : forall (T : Type) (f : T -> T -> T) (x : Z -> T) (P : Z),
+  sym_eval f x (S (Z.to_nat (maxlevel P))) (sym_reduce_result P) = Some (reduce_result T f P x, []).
+Proof. exact @sym_eval_reduce_result. Qed.
+Print Assumptions C03_symbolic_result_is_tree.
+
+(* the upward phase for one subtree (both operations): inside any global state in which the existing ranks of the
+   node (l, br) are at their initial program and the channels inside the subtree are empty, the subtree can be
+   scheduled - nobody else moves, channels end as they were - until its representative stands at level l with the
+   tree value of the node *)
+Theorem C03_subtree_schedule : forall P m target, 0 <= m <= 30 -> 1 <= P <= 2 ^ m -> 0 <= target < P ->
+  forall (da : bool) A2A d l br, l = m - Z.of_nat d -> (d = 0%nat \/ c_SC_REDUCE_ALLTOALL_LEVEL <= l) -> 0 <= l -> 0 <= br ->
+  lft m l br < P ->
+  forall s, (forall r, Sub P m l br r -> pr s r = start P m target da A2A r) -> Subch P m l br s ->
+  exists n s' KQ, run n s s' /\
+    pr s' (rep m target l br) = rec_gen P m da target A2A (S (Z.to_nat l)) l br (V P m l br) KQ /\
+    (forall r, ~ Sub P m l br r -> pr s' r = pr s r) /\ (forall a b t, ch s' a b t = ch s a b t) /\
+    after P m target da l br s' KQ.
+Proof. exact up. Qed.
+Print Assumptions C03_subtree_schedule.
+
+Example C03_schedule_instance :
+  (exists n f, run n (red_start 13 7) f /\ final f /\ pr f 7 = Ret (sym_reduce_result 13) /\ (forall a b t, ch f a b t = [])) /\
+  sym_eval (fun s r : list Z => r ++ s) (fun i => [i]) 5 (sym_reduce_result 13) = Some ([0; 1; 2; 3; 4; 5; 6; 7; 8; 9; 10; 11; 12], []).
+Proof. split; [apply reduce_one_schedule; split; discriminate || reflexivity | vm_compute; reflexivity]. Qed.
